@@ -35,11 +35,18 @@ def _one(args):
     prop, m, known = args
     d = scratch_copy()
     try:
-        path = os.path.join(d, m["file"])
-        src = open(path).read()
-        if src.count(m["old"]) != 1:
-            return ("noapply", m["name"], src.count(m["old"]))
-        open(path, "w").write(src.replace(m["old"], m["new"]))
+        if m.get("patch"):
+            # a whole diff kept under /verif (behaviour-preserving refactorings written by independent agents)
+            pf = os.path.join(units.VERIF, m["patch"])
+            rc = subprocess.call(["patch", "-p1", "--quiet", "-d", d, "-i", pf], stdout=subprocess.DEVNULL, stderr=subprocess.DEVNULL)
+            if rc != 0:
+                return ("noapply", m["name"], 0)
+        else:
+            path = os.path.join(d, m["file"])
+            src = open(path).read()
+            if src.count(m["old"]) != 1:
+                return ("noapply", m["name"], src.count(m["old"]))
+            open(path, "w").write(src.replace(m["old"], m["new"]))
         try:
             r = run_on(prop, d)
             fails = [rl.full_key(i) for rl in r.rules for i in rl.instances
@@ -77,7 +84,7 @@ def run(prop, rep, only=None, verbose=False):
         if o[0] == "noapply":
             raise AnalysisBroken("self-test mutant %s/%s does not apply to %s "
                                  "(text occurs %d times): re-freeze the mutant"
-                                 % (prop, m["name"], m["file"], o[2]))
+                                 % (prop, m["name"], m.get("file") or m.get("patch"), o[2]))
         _, name, ok, hit, fails, broken = o
         applied += 1
         detected += 1 if ok else 0
